@@ -23,7 +23,7 @@ from ariadne_codegen.codegen import (
     generate_module,
     generate_name,
 )
-from ariadne_codegen.config import get_client_settings
+from ariadne_codegen.config import get_client_settings, get_section
 from ariadne_codegen.plugins.base import Plugin
 from ariadne_codegen.utils import (
     ISORT_CONFIG,
@@ -37,8 +37,7 @@ class ExtractOperationsPlugin(Plugin):
         super().__init__(schema=schema, config_dict=config_dict)
         self.settings = get_client_settings(config_dict=self.config_dict)
         self.operations_module_name = (
-            self.config_dict.get("tool", {})
-            .get("ariadne-codegen", {})
+            get_section(self.config_dict)
             .get("extract-operations", {})
             .get("operations_module_name", "operations")
         )
